@@ -29,7 +29,7 @@ ReportSets ==
   ELSE (SUBSET Plain) \cup {r \in SUBSET Prefixed : Cardinality(r) \in 1..2}
 ShapesOf(prog) ==
   IF prog = "assemble" THEN {"normal", "nosnv", "noreads", "refabsent", "refabsent1", "nocall"}
-  ELSE {"normal", "nosnv", "noreads", "refabsent", "refabsent1", "noa", "af0", "zeroalt"}
+  ELSE {"normal", "nosnv", "noreads", "refabsent", "refabsent1", "noa", "af0", "zeroalt", "zerolast", "onlyref"}
 PloidyVectors == IF Tier = "mutant" THEN {<<2, 4, 6>>} ELSE IF Tier = "quick" THEN {<<4, 4, 4>>, <<2, 4, 6>>} ELSE {<<4, 4, 4>>, <<2, 4, 6>>, <<1, 3, 2>>, <<2, 2, 2>>}
 Patterns == 1..3
 
@@ -73,7 +73,7 @@ NAltOf(shape) ==
   CASE shape \in {"nosnv", "noa", "nocall"} -> 0
     [] shape = "refabsent1" -> 1
     [] shape \in {"normal", "noreads", "refabsent", "af0"} -> 2
-    [] shape = "zeroalt" -> 3
+    [] shape \in {"zeroalt", "zerolast", "onlyref"} -> 3
 AltsOf(shape) == SubSeq(AltPool, 1, NAltOf(shape))
 HasSnvs(shape) == shape \notin {"nosnv", "noa"}
 HasReads(shape) == shape # "noreads"
@@ -88,6 +88,8 @@ Allowed(shape) ==
     [] shape = "refabsent" -> <<1, 2>>
     [] shape = "refabsent1" -> <<1>>
     [] shape = "zeroalt" -> <<0, 1, 3>>          \* ALT 2 has prior frequency zero
+    [] shape = "zerolast" -> <<0, 1, 2>>         \* the LAST allele of the record has prior frequency zero
+    [] shape = "onlyref" -> <<0>>                \* every ALT has prior frequency zero
     [] OTHER -> <<>>
 (* SNVPOS: assemble reports the input variants of the locus; the call programs the     *)
 (* positions where a listed ALT differs from REF                                          *)
